@@ -374,14 +374,8 @@ fn main() {
                 state.current_stack()
             ));
 
-            res.push_str(&*format!(
-                "
-    last = Option::{};",
-                match state.get_latest_loc() {
-                    Some(v) => format!("Some({})", v),
-                    None => String::from("None"),
-                }
-            ));
+            // jump sources, like labels, are block indices in the generated program
+            let mut latest = None;
 
             let mut point = state.get_all_point();
             point.sort_by(|a, b| a.1.partial_cmp(&b.1).unwrap());
@@ -403,6 +397,9 @@ fn main() {
                             point[idx].1 = codes.len() - 1;
                             idx += 1;
                         }
+                        if state.get_latest_loc() == Some(i) {
+                            latest = Some(codes.len() - 1);
+                        }
                         codes.push(Vec::new());
                     }
                     Area::Nil => {
@@ -410,6 +407,15 @@ fn main() {
                     }
                 }
             }
+
+            res.push_str(&*format!(
+                "
+    last = Option::{};",
+                match latest {
+                    Some(v) => format!("Some({})", v),
+                    None => String::from("None"),
+                }
+            ));
 
             if opt {
                 for (a, b) in point {
